@@ -68,6 +68,8 @@ def formula_scope(name):
         # path formula (G F p, X G q, (X p) U q, ...): the shapes no CTL rule applies to
         return [(q, g) for q in 'AE' for g in fm.enum_exact(fm.LTL_UN, fm.LTL_BIN, (fm.P, fm.Q), 2)
                 if g[0] in fm.TEMP and fm.temporal_count(g) == 2]
+    if name == 'nary':
+        return fm.ctls_nary()
     if name == 'sib':
         return fm.ctls_siblings()
     if name == 'sib/2':
@@ -191,7 +193,8 @@ def run(ctx):
                   (2, 'bool2', 1), (3, 'Qg-k1', 16), (3, 'nest2', 64), (4, 'Qg-k1', 8009),
                   (3, 'Qg-tt', 7), (3, 'Qg-k2', 211), (4, 'Qg-tt', 40009),
                   (2, 'Qg-k3', 1), (3, 'Qg-k3', 211), (2, 'nest3', 1), (3, 'nest3', 101),
-                  (1, 'sib', 1), (2, 'sib', 2), (3, 'sib', 199), (2, 'rep', 4), (3, 'rep', 997)]
+                  (1, 'sib', 1), (2, 'sib', 2), (3, 'sib', 199), (2, 'rep', 4), (3, 'rep', 997),
+                  (2, 'nary', 2), (3, 'nary', 199)]
         ctx.scopes = ['S(1)+S(2) x Qg-k2 (8648 formulas)', 'S(1)+S(2) x nest2', 'S(2) x bool2',
                       'every 16th of S(3) x Qg-k1', 'every 64th of S(3) x nest2',
                       'every 8009th of S(4) x Qg-k1', 'every 7th of S(3) x Qg-tt (two nested temporal operators)',
@@ -199,12 +202,14 @@ def run(ctx):
                       'S(2) and every 211th of S(3) x Qg-k3 (every 97th body with exactly 3 operators)',
                       'S(2) and every 101st of S(3) x nest3 (224 formulas with quantifier nesting 3)',
                       'S(1), every 2nd of S(2), every 199th of S(3) x sib (1344 formulas quantifying one non-CTL path formula twice as siblings)',
-                      'every 4th of S(2), every 997th of S(3) x rep (repeated temporal/quantified subformulas under both polarities)']
+                      'every 4th of S(2), every 997th of S(3) x rep (repeated temporal/quantified subformulas under both polarities)',
+                      'every 2nd of S(2), every 199th of S(3) x nary (1736 formulas: A/E over 3- and 4-ary and/or of temporal operands)']
     else:
         scopes = [(1, 'Qg-k2', 1), (2, 'Qg-k1', 1), (2, 'Qg-k2', 24), (1, 'nest2', 1),
                   (2, 'nest2', 12), (2, 'bool2', 6), (3, 'Qg-k1', 331), (4, 'Qg-k1', 120011),
                   (3, 'Qg-tt', 401), (2, 'Qg-k3', 24), (3, 'Qg-k3', 3001), (2, 'nest3', 12), (3, 'nest3', 2003),
-                  (2, 'sib/2', 36), (3, 'sib/2', 5501), (2, 'rep', 72), (3, 'rep', 11003)]
+                  (2, 'sib/2', 36), (3, 'sib/2', 5501), (2, 'rep', 72), (3, 'rep', 11003),
+                  (2, 'nary', 48), (3, 'nary', 7001)]
         ctx.scopes = ['S(1) x Qg-k2', 'S(2) x Qg-k1', 'every 24th of S(2) x Qg-k2', 'S(1) x nest2',
                       'every 12th of S(2) x nest2', 'every 6th of S(2) x bool2',
                       'every 331st of S(3) and every 120011th of S(4) x Qg-k1',
@@ -212,7 +217,8 @@ def run(ctx):
                       'every 24th of S(2) and every 3001st of S(3) x Qg-k3 (every 97th body with exactly 3 operators)',
                       'every 12th of S(2) and every 2003rd of S(3) x nest3 (quantifier nesting 3)',
                       'every 36th of S(2), every 5501st of S(3) x every 2nd of sib (1344 formulas quantifying one non-CTL path formula twice as siblings)',
-                      'every 72nd of S(2), every 11003rd of S(3) x rep (repeated subformulas under both polarities)']
+                      'every 72nd of S(2), every 11003rd of S(3) x rep (repeated subformulas under both polarities)',
+                      'every 48th of S(2), every 7001st of S(3) x nary (1736 formulas: A/E over 3- and 4-ary and/or of temporal operands)']
     ctx.exhaustive = True
     ctx.assumptions = ['reference semantics vp/ref.py (R-STAR) is the trusted base',
                        'atoms are p,q: exactness under atom names that collide with the '
